@@ -235,8 +235,12 @@ func fmtRToks(ts []lexgen.RTok) string {
 	return sb.String()
 }
 
-func TestC03(t *testing.T) {
-	runProp(t, "C03", c03Rule, func(t *rapid.T, r *vstat.Run) {
+func TestC03(t *testing.T) { runProp(t, "C03", c03Rule, propC03) }
+
+func FuzzC03(f *testing.F) { fuzzProp(f, "C03", propC03) }
+
+func propC03(t *rapid.T, r *vstat.Run) {
+	{
 		g := lexgen.GenRuleSet(t, lexgen.RuleOpts{})
 		def, rej := newDef(g.RS)
 		if rej != "" {
@@ -248,7 +252,7 @@ func TestC03(t *testing.T) {
 			c := newLexCase(g.RS, g.GenInput(t))
 			report(t, r, checkC03(c, def, r), c)
 		}
-	})
+	}
 }
 
 func replayLex(t *testing.T, id string, check func(c *lexCase, def *lexer.StatefulDefinition) outcome) {
@@ -280,7 +284,9 @@ const c07Rule = "generated rule sets including Pop/Return reachable in the initi
 	"with nothing to return to, or >=3 calls after EOF/error; distinct by SHA-256 of (rules, input, extra calls)"
 
 func checkC07(c *lexCase, def lexer.Definition, r *vstat.Run) outcome {
-	desc := func() string { return fmt.Sprintf("input %q extra Next calls %d\n%s", c.Input, c.ExtraNext, c.RS.String()) }
+	desc := func() string {
+		return fmt.Sprintf("input %q extra Next calls %d\n%s", c.Input, c.ExtraNext, c.RS.String())
+	}
 	var out outcome
 	var ntoks int
 	var sawErr, sawEOF bool
@@ -371,8 +377,12 @@ func checkC07(c *lexCase, def lexer.Definition, r *vstat.Run) outcome {
 	return out
 }
 
-func TestC07(t *testing.T) {
-	runProp(t, "C07", c07Rule, func(t *rapid.T, r *vstat.Run) {
+func TestC07(t *testing.T) { runProp(t, "C07", c07Rule, propC07) }
+
+func FuzzC07(f *testing.F) { fuzzProp(f, "C07", propC07) }
+
+func propC07(t *rapid.T, r *vstat.Run) {
+	{
 		g := lexgen.GenRuleSet(t, lexgen.RuleOpts{AllowUnderflow: true})
 		def, rej := newDef(g.RS)
 		if rej != "" {
@@ -385,7 +395,7 @@ func TestC07(t *testing.T) {
 			c.ExtraNext = rapid.SampledFrom([]int{0, 1, 3, 5}).Draw(t, "extra")
 			report(t, r, checkC07(c, def, r), c)
 		}
-	})
+	}
 }
 
 func TestC07Replay(t *testing.T) {
